@@ -199,6 +199,8 @@ PROPS = {
     ),
     "C12": dict(
         props="Props/C12.v", tables=["core"],
+        src=["py_to_json", "py__to_json", "py_PLWriter_transform", "py_SPLOTWriter_transform", "py_ClaferWriter_transform",
+             "py_AFMWriter_transform"],
         suites=[suite_env.run],
         rule=("suite H: all eight writers on generated models (AFM-compatible models with attributes, models with "
               "non-ASCII / special names, wide groups) in fresh interpreter processes under 5 (quick) / 24 (thorough) "
@@ -303,6 +305,7 @@ PROPS = {
     ),
     "C10": dict(
         props="Props/C10.v", tables=["core"],
+        src=["py_to_exp", "py_get_relation_formula", "py_get_constraint_formula", "py__node_formula", "py__operand_formula", "py_fm_to_splot", "py_add_features", "py_add_constraints", "py_safename", "py_PLWriter_transform", "py_SPLOTWriter_transform"],
         suites=[suite_export.run_splot, suite_export.run_pl, suite_known.run_c10_known],
         rule=("suites W-splot / W-pl: bytes of SPLOTWriter / PLWriter vs [render_splot] / [pl_lines]; suites S-splot / S-pl: "
               "an independent interpreter of each target format (SXFM tree + CNF clauses; pl configuration lines) enumerates "
@@ -317,6 +320,7 @@ PROPS = {
     ),
     "C11": dict(
         props="Props/C11.v", tables=["core"],
+        src=["py_fm_to_clafer", "py_read_features", "py_read_feature_attributes", "py__double_literal", "py_parse_group_type", "py__in_any_number_group", "py__serialize_node", "py__serialize_operand", "py_attributes_definition", "py_parse_type_value", "py_safename", "py_ClaferWriter_transform"],
         suites=[suite_export.run_clafer, suite_known.run_c11_known],
         rule=("suites W-clafer (bytes of ClaferWriter vs [render_clafer]) and S-clafer (independent interpreter of the "
               "Clafer subset: group cardinalities xor/or/mux/[a..b], optional marker, constraints in brackets; instances "
